@@ -447,7 +447,22 @@ func (r *Run) Supervise() {
 	cmd.Env = append(os.Environ(), "VERIF_SUPERVISED=1", "GOTRACEBACK=all")
 	cmd.Stdout = os.Stdout
 	cmd.Stderr = ef
+	// the parent only waits: its own progress watchdog must not fire while the child is alive
+	// (the child has its own watchdog)
+	childDone := make(chan struct{})
+	go func() {
+		for {
+			select {
+			case <-childDone:
+				return
+			case <-time.After(3 * time.Second):
+				r.touch()
+			}
+		}
+	}()
 	runErr := cmd.Run()
+	close(childDone)
+	r.replayN = 1000 // witness files of the supervising parent never overwrite the child's
 	ef.Close()
 	code := 0
 	if runErr != nil {
